@@ -551,6 +551,8 @@ def run(rep, tier):
     rep.floor("bit/byte dimensioned expressions", n_dim, 20)
     rep.floor("per-iteration temporaries read in loops", n_fresh, 3)
     rep.floor("stores to ->digits", n_norm, 8)
+    from props import c03
+    c03.reduce_rule(rep, us[cs[0][0]])            # modular reduction: only a value strictly below the modulus is left alone
     rep.floor("destination (num, count) arguments", n_cap, 12)
     rep.floor("pure-result three-operand routines", alias_rule(rep, us[cs[0][0]]), 2)
     return driver.finish(
